@@ -97,6 +97,8 @@ Reward(comp, st, a, st2) ==
          IN IF ~has /\ has2 THEN Param(comp, "reward_pick", 1000)
             ELSE IF has /\ ~has2 THEN Param(comp, "reward_drop", -1000)
             ELSE 0
+    [] comp.name = "collect_coin_reward" ->   \* examples/coin_env.py: the cell entered held a coin in the old state
+         IF Cell(st.grid, st2.pos).t = "Coin" THEN Param(comp, "reward", 1000) ELSE 0
     [] comp.name = "reach_exit_memory" ->
          IF OnType(st2, "Exit")
            THEN (IF Cell(st2.grid, st2.pos).c = BeaconColor(st2)
@@ -141,6 +143,7 @@ Terminates(comp, st, a, st2) ==
     [] comp.name = "reach_exit" -> OnType(st2, "Exit")
     [] comp.name = "bump_moving_obstacle" -> OnType(st2, "MovingObstacle")
     [] comp.name = "bump_into_wall" -> BumpsWall(st, a)
+    [] comp.name = "no_more_coins" -> FindType(st2.grid, "Coin") = {}   \* examples/coin_env.py
 
 \* agreement clauses of C12 -------------------------------------------------
 \* an environment with an exit reward pays `on` exactly when exit-termination fires
